@@ -3,7 +3,8 @@
 prove      : lake build SteelVerif.C19.Props (+ axiom audit) on the C04 model: count_inv (alloc_count = number
              of free slots after every operation, also when other threads' roots are marked first),
              sweep_complete (after a full collection everything still allocated is reachable: cycles need no
-             special case), reuse_before_grow / no_growth_while_free, weak_box_cleared; negative witness for the
+             special case), reuse_before_grow / no_growth_while_free, heap_bounded (bounded live set => bounded
+             number of slots for any number of operations), weak_box_cleared; negative witness for the
              dropped-statistics variant (the defect fixed in b0ffd538).
 correspond : allocation patterns with a bounded live set on real engines (harness c04), `#%verif-heap-stats`
              sampled: alloc_count == free slots found by counting (both free lists) at every sample; after a
@@ -24,10 +25,10 @@ from . import c04
 
 PID = "C19"
 META = {
-    "ready": False,
+    "ready": True,
     "category": "proof",
     "technique": "Lean 4 theorems on the C04 free-list/collector model (free-slot accounting invariant over all operation lists, sweep completeness by graph reachability, reuse before growth, weak box clearing) + heap statistics of the real engine sampled over long allocation patterns with a bounded live set",
-    "level_text": "Proved for all heaps, roots and operation lists (SteelVerif/C19/Props.lean): after every operation alloc_count equals the number of slots whose mark bit is clear, the cursor slot is free and addresses are distinct (count_inv; also for marking several root sets one after the other with summed statistics — and a `decide`d witness that dropping the first counter, the code before b0ffd538, breaks it); after a full collection every slot still marked allocated is reachable from the roots along the fields the marker follows, so garbage of any shape — chains, cycles of any length, self-capturing closures — is free (sweep_complete), and the marker follows no field outside the specification table; allocate always hands out an existing free slot and extends the list only when it took the last one (reuse_before_grow); a weak box whose private slot is unreachable reports cleared after a collection. NOT proved: the closed-form bound of the growth-then-compaction policy (len <= max(L, 25600) * 2^10 for live sets <= L); only 'no growth while a free slot exists' is proved, the bound itself is checked on the sampled runs. Resident memory of the process is outside the model.",
+    "level_text": "Proved for all heaps, roots and operation lists (SteelVerif/C19/Props.lean): after every operation alloc_count equals the number of slots whose mark bit is clear, the cursor slot is free and addresses are distinct (count_inv; also for marking several root sets one after the other with summed statistics — and a `decide`d witness that dropping the first counter, the code before b0ffd538, breaks it); after a full collection every slot still marked allocated is reachable from the roots along the fields the marker follows, so garbage of any shape — chains, cycles of any length, self-capturing closures — is free (sweep_complete), and the marker follows no field outside the specification table; allocate always hands out an existing free slot and extends the list only when it took the last one (reuse_before_grow); a weak box whose private slot is unreachable reports cleared after a collection; heap_bounded: for every operation list (allocations under the 95 % policy, explicit collections anywhere) in which each full collection finds at most M >= EXTEND_CHUNK live slots, the number of slots never exceeds 2*M*2^RESET_LIMIT (= max(L, 25600) * 2^10 for the constants of the code) and grow_count stays in 1..RESET_LIMIT+1, independent of the number of operations (growth-then-compaction policy; the policy leaves two free slots so FreeList::allocate itself never extends). Resident memory of the process (Arc allocations, Vec capacity, the allocator) is outside the model; the sampled runs check the slot counts against the bound.",
     "level_note": "Trusted: Lean kernel, the C04 translator and tables, harness/generator/comparison, the #%verif-heap-stats hook. Deferred cross-thread reference drops (steel-rc merge queues, property C05) and will executors are not modelled.",
 }
 
@@ -273,7 +274,8 @@ def run(ctx):
         "known_finding_hits": stats["known_hits"], "axioms": pr.get("axioms", {}),
         "proof_failures": ["%s: %s" % f for f in pr["failed"]],
     })
-    ctx.assumptions = ["closed-form heap bound of the growth/compaction policy is checked on runs, not proved"]
+    ctx.assumptions = ["one free list in the model stands for both instances of the generic Rust FreeList",
+                       "resident memory is not modelled: the bound is on the number of slots"]
     return ctx.finish("proof")
 
 
